@@ -223,13 +223,20 @@ func TestVfC14Stale(t *testing.T) {
 			// of a reply (1, 2, 3 or 9 octets) and then closes; connections dialled afterwards are served
 			mode = "stale-half-reply"
 		}
+		idle := time.Duration(0)
+		if (kind == "tcp+pipeline" || kind == "tls+pipeline") && mode != "stale-half-reply" && rapid.IntRange(0, 2).Draw(t, "silentConnections") == 1 {
+			// the pooled connection stays open and takes queries, but the server answers nothing on it any more (idle_timeout
+			// 300 ms: a connection that stays silent that long while a query waits is given up, and the query asked again
+			// on a new connection, which is served)
+			mode, idle = "stale-silent", 300*time.Millisecond
+		}
 		if kind == "quic" && rapid.Bool().Draw(t, "streamResets") {
 			// the pooled connection stays open, but the server refuses every new stream on it (it is draining that
 			// connection); connections dialled afterwards are served
 			mode = "stale-stream-reset"
 		}
 		var killAll atomic.Bool
-		var halfReplyUpTo, halfReplyOctets atomic.Int64
+		var halfReplyUpTo, halfReplyOctets, silentUpTo atomic.Int64
 		// the pool may hold more than one idle connection: "pool.c14" queries are held until poolSize of them have arrived,
 		// so that as many connections are open at once (on the kinds that use a connection per exchange)
 		poolSize := rapid.SampledFrom([]int{1, 1, 1, 2, 4, 8, 12}).Draw(t, "idleConnections")
@@ -239,6 +246,9 @@ func TestVfC14Stale(t *testing.T) {
 		srv, err := vfkit.StartUpstream(kind, "s", "127.0.0.1", 0, vfkit.ServerTLS(leaf), func(q *vfkit.UpQuery) vfkit.UpAction {
 			if killAll.Load() {
 				return vfkit.UpAction{CloseBefore: true}
+			}
+			if up := silentUpTo.Load(); up > 0 && q.ConnID <= up {
+				return vfkit.UpAction{} // a connection from before: silence
 			}
 			if up := halfReplyUpTo.Load(); up > 0 && q.ConnID <= up {
 				// a connection from before: the server starts its reply and hangs up in the middle of it
@@ -257,7 +267,7 @@ func TestVfC14Stale(t *testing.T) {
 			t.Fatalf("fake server: %v", err)
 		}
 		defer srv.Close()
-		u := vfNewUpstream(t, kind, srv.Port, 0)
+		u := vfNewUpstream(t, kind, srv.Port, idle)
 		defer vfClose(u)
 		warmN := rapid.IntRange(1, 3).Draw(t, "warmExchanges")
 		for i := 0; i < warmN; i++ {
@@ -284,15 +294,20 @@ func TestVfC14Stale(t *testing.T) {
 		}
 		before := srv.Conns()
 		switch mode {
-		case "stale-fin", "stale-rst", "stale-stream-reset", "stale-half-reply":
+		case "stale-fin", "stale-rst", "stale-stream-reset", "stale-half-reply", "stale-silent":
 			// several rounds per case: kill, wait 0 .. 50 ms (mostly next to nothing, so that the next exchange meets the
 			// connection while the client side is still finding out), exchange - which is also the warm-up of the next round
 			rounds := rapid.IntRange(1, 40).Draw(t, "rounds")
+			if mode == "stale-silent" {
+				rounds = min(rounds, 4) // each round waits for the idle time-out
+			}
 			for r := 0; r < rounds; r++ {
 				before = srv.Conns()
 				killed := 0
 				if mode == "stale-stream-reset" {
 					srv.ResetStreamsOnLiveConns()
+				} else if mode == "stale-silent" {
+					silentUpTo.Store(srv.LastConnID())
 				} else if mode == "stale-half-reply" {
 					halfReplyOctets.Store(int64(rapid.SampledFrom([]int{1, 2, 3, 9}).Draw(t, "replyOctetsBeforeTheClose")))
 					halfReplyUpTo.Store(srv.LastConnID())
